@@ -58,6 +58,10 @@ def generate(rng, i):
         env["warmup_s"] = None
     else:
         env["state"] = {"type": "rec", "feature": True, "k": rng.randint(1, 4)}
+        if rng.random() < 0.35:
+            # a second feature that is notified rarely but reads live quotes whenever it is parsed: what its history
+            # holds under a timestamp <= t is compared between the twins at the end of the episode
+            env["state"]["sparse_feature"] = True
     if rng.random() < 0.2:
         env["episode_length"] = rng.randint(1, max(1, len(env["grid"]) - 2))
     fold = rng.choice(sorted(env["folds"])) if env["folds"] else None
@@ -184,6 +188,27 @@ def execute(scenario):
                             name, eb["time"], scenario["cut"], keys), variant=name, kind="track_record_entry", field=keys[0] if keys else "?")
                         break
                     probe("final_track_record_entry_compared")
+        if not violations and env.get("state", {}).get("sparse_feature"):
+            def feat_hist(sim):
+                fs = [f for f in (sim.handles[0].state.features or []) if type(f).__name__ == "RecFeatureSparse"]
+                return dict(fs[0].history) if fs else None
+            hb, ha = feat_hist(base), feat_hist(simA)
+            if hb is not None and ha is not None:
+                def hist_upto(hh):
+                    out = {}
+                    for tkey, val in hh.items():
+                        tt = tkey.to_pydatetime() if hasattr(tkey, "to_pydatetime") else tkey
+                        if tt is not None and tt <= cut:
+                            out[core.iso(tt)] = canon(val)
+                    return out
+                ub, ua = hist_upto(hb), hist_upto(ha)
+                if ub != ua:
+                    bad = sorted(set(ub) ^ set(ua)) or sorted(k_ for k_ in ub if ub[k_] != ua.get(k_))
+                    violate("prefix_depends_on_future", "variant A: the history a feature recorded under timestamps <= {} differs between the twins (e.g. at {})".format(
+                        scenario["cut"], bad[:2]), variant="A", kind="feature_history", field="history")
+                probe("feature_history_compared")
+                if len(ub) >= 2:
+                    probe("feature_history_with_several_timestamps")
         if not violations and following is not None and following.get("exc") is None:
             # the trades executed in the following step depend on nothing stamped after t + latency (variant B)
             def exec_of(sim, call):
